@@ -2,6 +2,7 @@
   C04 — Every destination receives exactly its configured share.
 -/
 import C4E.Distr1
+import C4E.Distributor
 namespace C4E.Props.C04
 open C4E C4E.Distr1
 
@@ -135,5 +136,174 @@ theorem cumulative_receipts_drift (s : Int) (hs : 0 ≤ s) (xs : List Int) (hx :
     have : 0 < (P - rem) * P := Int.mul_pos (by omega) hp
     omega
   · exact absurd hnil hne
+
+/-! ### the faithful multi-denomination model: what one sub-distributor records -/
+
+section Faithful
+open C4E.Distr C4E.CoinList
+
+/-- recorded remains of all states in denomination `d` -/
+def remSum (d : String) : List DState → Int
+  | [] => 0
+  | s :: rest => amountOf s.remains d + remSum d rest
+
+theorem remSum_append (d : String) (a b : List DState) : remSum d (a ++ b) = remSum d a + remSum d b := by
+  induction a with
+  | nil => simp [remSum]
+  | cons x xs ih => simp only [List.cons_append, remSum, ih]; omega
+
+theorem remSum_modifyNth (d : String) (c : DecCoins) : ∀ (l : List DState) (n : Nat), n < l.length →
+    remSum d (modifyNth l n (fun s => { s with remains := CoinList.add s.remains c })) = remSum d l + amountOf c d
+  | [], n, h => by simp at h
+  | x :: xs, 0, _ => by simp only [modifyNth, remSum, amountOf_add]; omega
+  | x :: xs, n + 1, h => by
+    simp only [modifyNth, remSum]
+    rw [remSum_modifyNth d c xs n (by simpa using h)]; omega
+
+theorem findAccountState_bound : ∀ (l : List DState) (a : Account) (i p : Nat),
+    findAccountState l a i = .ok (some p) → i ≤ p ∧ p < i + l.length
+  | [], a, i, p, h => by simp [findAccountState] at h
+  | s :: rest, a, i, p, h => by
+    unfold findAccountState at h
+    split at h
+    · cases h
+    · split at h
+      · simp only [Outcome.ok.injEq, Option.some.injEq] at h; subst h; simp
+      · have := findAccountState_bound rest a (i + 1) p h
+        simp only [List.length_cons]; omega
+
+theorem addToAccountState_sum (d : String) (sts sts' : List DState) (a : Account) (c : DecCoins)
+    (h : addToAccountState sts a c = .ok sts') : remSum d sts' = remSum d sts + amountOf c d := by
+  unfold addToAccountState at h
+  split at h
+  · cases h
+  · cases h
+  · rename_i pos hf
+    cases h
+    have := findAccountState_bound sts a 0 pos hf
+    exact remSum_modifyNth d c sts pos (by omega)
+  · cases h
+    rw [remSum_append]
+    simp only [remSum, amountOf_add, amountOf]; omega
+
+theorem findBurnState_bound : ∀ (l : List DState) (i p : Nat), findBurnState l i = some p → i ≤ p ∧ p < i + l.length
+  | [], i, p, h => by simp [findBurnState] at h
+  | s :: rest, i, p, h => by
+    unfold findBurnState at h
+    split at h
+    · simp only [Option.some.injEq] at h; subst h; simp
+    · have := findBurnState_bound rest (i + 1) p h
+      simp only [List.length_cons]; omega
+
+theorem addToBurnState_sum (d : String) (sts : List DState) (c : DecCoins) :
+    remSum d (addToBurnState sts c) = remSum d sts + amountOf c d := by
+  unfold addToBurnState
+  split
+  · rename_i pos hf
+    have := findBurnState_bound sts 0 pos hf
+    exact remSum_modifyNth d c sts pos (by omega)
+  · rw [remSum_append]
+    simp only [remSum, amountOf_add, amountOf]; omega
+
+/-- what the named shares pointing to MAIN leave in the main account, in denomination `d` -/
+def mainShares (d : String) (x : DecCoins) : List Distr.Share → Int
+  | [] => 0
+  | sh :: rest => (if sh.dest.type = tMain then amountOf (calcPercentage (sh.share.getD 0) x) d else 0) + mainShares d x rest
+
+theorem amountOf_of_isZero' (c : CoinList) (d : String) (h : isZero c = true) : amountOf c d = 0 := by
+  induction c with
+  | nil => rfl
+  | cons kv rest ih =>
+    obtain ⟨k, v⟩ := kv
+    unfold isZero at h ih
+    simp only [List.all_cons, Bool.and_eq_true, beq_iff_eq] at h
+    simp only [amountOf, h.1, ih h.2]
+    split <;> rfl
+
+/-- the share loop: recorded + remainder + kept-in-main is conserved -/
+theorem distShares_states (sub : String) (x : DecCoins) (d : String) : ∀ (shs : List Distr.Share) (sts : List DState) (dflt : DecCoins)
+    (evs : List Distr.Event) (sts' : List DState) (dflt' : DecCoins) (evs' : List Distr.Event),
+    distShares sub x shs sts dflt evs = .ok (sts', dflt', evs') →
+    remSum d sts' + amountOf dflt' d + mainShares d x shs = remSum d sts + amountOf dflt d
+  | [], sts, dflt, evs, sts', dflt', evs', h => by
+    simp only [distShares, Outcome.ok.injEq, Prod.mk.injEq] at h
+    obtain ⟨h1, h2, _⟩ := h; subst h1; subst h2; simp [mainShares]
+  | sh :: rest, sts, dflt, evs, sts', dflt', evs', h => by
+    unfold distShares at h
+    simp only [] at h
+    split at h
+    · cases h
+    · rename_i d1 hsub
+      have hs := amountOf_sub hsub d
+      unfold mainShares
+      split at h
+      · split at h
+        · rename_i hnm
+          split at h
+          · rename_i stsA hadd
+            have h1 := addToAccountState_sum d sts stsA sh.dest _ hadd
+            have := distShares_states sub x d rest _ _ _ _ _ _ h
+            have hnm' : ¬ sh.dest.type = tMain := hnm
+            simp only [hnm', if_false]
+            omega
+          · cases h
+          · cases h
+        · rename_i hm
+          have hm' : sh.dest.type = tMain := by simpa using hm
+          have := distShares_states sub x d rest _ _ _ _ _ _ h
+          simp only [hm', if_true]
+          omega
+      · rename_i hz
+        have hz' : isZero (calcPercentage (sh.share.getD 0) x) = true := by simpa using hz
+        have h0 := amountOf_of_isZero' _ d hz'
+        have := distShares_states sub x d rest _ _ _ _ _ _ h
+        rw [h0]
+        split <;> omega
+
+/-- **one sub-distributor execution of the code-tied model, every denomination**: what the states
+    record afterwards is what they recorded before plus the whole inflow, minus exactly what stays in
+    the main account for MAIN destinations (named MAIN shares, and the remainder when the primary
+    destination is MAIN) — every coin of the inflow is recorded for a destination, recorded for
+    burning, or left in main for a later MAIN-sourced sub-distributor -/
+theorem faithful_allocation_conserves (sts : List DState) (x : DecCoins) (s : SubD) (sts' : List DState)
+    (evs : List Distr.Event) (h : startDistribution sts x s = .ok (sts', evs)) (d : String) :
+    ∃ primaryAmt, remSum d sts' + mainShares d x s.shares + (if s.primary.type = tMain then primaryAmt else 0)
+      = remSum d sts + amountOf x d := by
+  unfold startDistribution at h
+  split at h
+  · cases h
+  · cases h
+  · rename_i sts1 dflt1 evs1 hsh
+    have inv := distShares_states s.name x d s.shares sts x [] sts1 dflt1 evs1 hsh
+    simp only [] at h
+    split at h
+    · cases h
+    · rename_i dflt hsub
+      have hs := amountOf_sub hsub d
+      have hb : remSum d (if (!isZero (calcPercentage (s.burnShare.getD 0) x)) = true then addToBurnState sts1 (calcPercentage (s.burnShare.getD 0) x) else sts1)
+          = remSum d sts1 + amountOf (calcPercentage (s.burnShare.getD 0) x) d := by
+        by_cases hz : isZero (calcPercentage (s.burnShare.getD 0) x) = true
+        · simp [hz, amountOf_of_isZero' _ d hz]
+        · have : (!isZero (calcPercentage (s.burnShare.getD 0) x)) = true := by simpa using hz
+          simp only [this, if_true]; exact addToBurnState_sum d sts1 _
+      refine ⟨amountOf dflt d, ?_⟩
+      split at h
+      · rename_i hp
+        have hp' : ¬ s.primary.type = tMain := hp
+        split at h
+        · rename_i sts3 hadd
+          cases h
+          have := addToAccountState_sum d _ _ s.primary dflt hadd
+          simp only [hp', if_false]
+          omega
+        · cases h
+        · cases h
+      · rename_i hp
+        have hp' : s.primary.type = tMain := by simpa using hp
+        cases h
+        simp only [hp', if_true]
+        omega
+
+end Faithful
 
 end C4E.Props.C04
